@@ -144,6 +144,12 @@ def write_project(root, files, seed, opts_extra, name="Determinism", pages=True)
         open(os.path.join(pd, "sub", "leaf.md"), "w").write("title: Leaf\n\nText\n")
         opts["page_dir"] = "./pages"
     open(os.path.join(proj, "src", "data.inc"), "w").write("! extra file\n! another line\n")
+    # a source file with a very long (valid) file name, and declarations of user-defined type names (`extra_vartypes`) of which one
+    # is a prefix of the other
+    long_name = "long_" + "abcdefghij" * 17 + f"_{seed % 1000}.f90"
+    open(os.path.join(proj, "src", long_name), "w").write(f"module zlong{seed % 1000}\n!! doc of the module in the long file\nimplicit none\nFLOAT_PTR :: cursor\n!! doc of cursor\nFLOAT :: plainf\n"
+                                                           f"!! doc of plainf\nFLOAT_PTR_ARR :: cursors(3)\n!! doc of cursors\nend module zlong{seed % 1000}\n")
+    opts["extra_vartypes"] = ["FLOAT", "FLOAT_PTR_ARR", "FLOAT_PTR"] if seed % 2 else ["FLOAT_PTR", "FLOAT", "FLOAT_PTR_ARR"]
     # INCLUDE: two include directories hold a file of one name (the first one listed wins), and an include line whose spelling
     # matches no file exactly while two files differ from it in letter case only (FORD reports it and goes on)
     for k, dn in enumerate(("inc_generic", "inc_platform")):
